@@ -31,7 +31,7 @@ CONF = {
                 big=[("big", 25, 400), ("everything", 100, 2000)], enum=True),
     "C02": dict(prefixes=("C02.",), builds=("pure",),
                 model=[("faults", 500, 5000), ("lazyfail", 250, 2500), ("syncfaults", 250, 3000), ("ctxfaults", 200, 2000), ("basefaults", 300, 3000),
-                       ("everything", 200, 3000)],
+                       ("everything", 200, 3000), ("cancel", 250, 2500)],
                 big=[("faults", 400, 5000)]),
     "C03": dict(prefixes=("C03.",), builds=("pure",),
                 model=[("plain", 300, 3000), ("dag", 400, 4000), ("spawn", 200, 2000), ("sync", 250, 2500), ("ival", 200, 2000), ("spawnsync", 200, 2000), ("again", 250, 2500),
@@ -55,7 +55,8 @@ CONF = {
                        ("overridedag", 500, 5000), ("overrideset", 400, 4000)],
                 big=[("overridesync", 300, 3000), ("overridefaults", 300, 3000)]),
     "C08": dict(prefixes=("C08.",), builds=("pure",),
-                model=[("session", 400, 4000), ("syncfaults", 200, 2500), ("overflow", 300, 3000), ("overflowbatch", 400, 4000), ("sync", 150, 1500), ("throw", 250, 2500), ("spawnsync", 300, 3000), ("lazyfail", 150, 1500)],
+                model=[("session", 400, 4000), ("syncfaults", 200, 2500), ("overflow", 300, 3000), ("overflowbatch", 400, 4000), ("sync", 150, 1500), ("throw", 250, 2500), ("spawnsync", 300, 3000), ("lazyfail", 150, 1500),
+                       ("cancelsession", 300, 3000)],
                 monitor_only=[("sessionfaulty", 400, 4000), ("faultyctx", 250, 2500), ("faultysync", 250, 2500), ("faultyalways", 400, 4000)],
                 big=[("session", 300, 3000)], fresh=True),
     "C12": dict(prefixes=("C12.",), builds=("pure",),
@@ -63,6 +64,11 @@ CONF = {
                        ("dedupcatch", 300, 2500)],
                 big=[("dedupdirty", 500, 2500)]),
 }
+
+
+# debug options under which a third of every family is run as well (natural schedule)
+OPTION_SETS = [{"KEEP_DEPENDENCIES": True}, {"ENABLE_COMPLEX_ASSERTIONS": False},
+               {"KEEP_DEPENDENCIES": True, "COLLECT_PERF_STATS": True}, {"DUMP_NEW_TASKS": True, "DUMP_SCHEDULE_BATCH": True, "DUMP_FLUSH_BATCH": True}]
 
 
 def features(prog):
@@ -291,6 +297,10 @@ def main():
         for i, p in enumerate(progs):
             if i % 3 == seed % 3:
                 jobs.append({"prog": p, "schedule": None, "tb": None, "kind": "natural"})
+        # ---- the same, under debug options that must not matter (the properties hold for every option setting) ----
+        for i, p in enumerate(progs):
+            if i % 3 == (seed + 1) % 3:
+                jobs.append({"prog": p, "schedule": None, "tb": None, "kind": "options", "options": OPTION_SETS[(i // 3) % len(OPTION_SETS)]})
         # ---- (C') larger / monitor-only families under pseudo-random tie-breaks ---------------------------
         for prof, *ns in conf.get("big", []):
             for i, p in enumerate(plang.sample(prof, seed + 1000, ns[ti - 1])):
@@ -317,7 +327,7 @@ def main():
                     if real != j["schedule"]:
                         nosteer += 1
                 traces.append({"id": len(traces), "prog": j["prog"], "events": r["events"], "build": bname,
-                               "schedule": j["schedule"], "tb": j["tb"], "kind": j["kind"]})
+                               "schedule": j["schedule"], "tb": j["tb"], "kind": j["kind"], "options": j.get("options")})
         cov["traces_validated_against_impl"] = len(traces)
         cov["builds"] = list(builds)
         cov["replayed_behaviours_not_following_schedule"] = nosteer
@@ -337,7 +347,7 @@ def main():
                     clause_counts[cl] += 1
                     verdict.report(cl, features(t["prog"]),
                                    {"prog": t["prog"], "schedule": t["schedule"], "tb": t["tb"], "build": t["build"],
-                                    "entry": entry})
+                                    "options": t.get("options"), "entry": entry})
                 else:
                     other[cl] += 1
         cov["clause_violations"] = dict(clause_counts)
@@ -403,6 +413,11 @@ def main():
             for bad in dc["bad"]:
                 verdict.report("C03.term.deep", "deep-chain", bad)
 
+        # ---- satellite of C07: call_with_context, the AsyncScopedValue / async_override API (ScopedCall.tla) --------
+        if pid == "C07":
+            import sat_c07x
+            cov["scopedcall"] = sat_c07x.run(sc, builds, tier, verdict)
+
         # a model alarm that the real code confirms is already reported through the traces; one that the real
         # code does not confirm is a defect of the model: machinery failure, not a verdict
         if model_alarm and not verdict.violations and not verdict.known:
@@ -429,8 +444,18 @@ def main():
 def replay(path, pid, sc):
     obj = json.load(open(path))
     case = obj["case"]
+    if case.get("sat") == "c07x":
+        import sat_c07x
+        verdict = Verdict(pid)
+        sat_c07x.run(sc, {case.get("build", "pure"): sc.build(case.get("build", "pure"))}, "quick", verdict, only_case=case["case"])
+        for clause, trig, o in verdict.violations:
+            print(json.dumps({"clause": clause, "trigger": trig, "diff": o["diff"], "got": o["got"]}, indent=1))
+        if verdict.violations:
+            print("VIOLATION property=%s replay=%s" % (pid, path))
+        return 1 if verdict.violations else 0
     bdir = sc.build(case.get("build", "pure"))
-    res = pipeline.run_jobs(bdir, [{"id": 0, "prog": case["prog"], "schedule": case.get("schedule"), "tb": case.get("tb")}])
+    res = pipeline.run_jobs(bdir, [{"id": 0, "prog": case["prog"], "schedule": case.get("schedule"), "tb": case.get("tb"),
+                                    "options": case.get("options")}])
     tr = [{"id": 0, "prog": case["prog"], "events": res[0]["events"]}]
     v, _ = pipeline.validate(tr, sc)
     print(json.dumps({"clauses": v[0]}, indent=1))
